@@ -171,7 +171,9 @@ def correspondence(ctx):
             r = call_impl(zoo.linearity_oracle, case, ctx.nprng)
             ctx.evaluations += 1
             ctx.branch("lib." + fam)
-            if r[0] == "err":
+            if r[0] == "err" and zoo.numerical_limit(fam, r[2]):
+                ctx.skipped_boundary += 1
+            elif r[0] == "err":
                 ctx.oracle_fail(f"{case.name}: response/sensitivity/reset raised {r[2][:300]}", {"family": fam, "case": case.name})
             elif r[1]:
                 ctx.oracle_fail(r[1], {"family": fam, "case": case.name})
